@@ -19,8 +19,8 @@ EXTENDS Naturals, Integers, Sequences, FiniteSets, TLC, Json, IOUtils
 Batch  == JsonDeserialize(IOEnv.TRACE_FILE)
 Traces == Batch.traces
 
-VARIABLES tid, l, cs, hit, killed, fincnt, errs, fin
-vars == <<tid, l, cs, hit, killed, fincnt, errs, fin>>
+VARIABLES tid, l, cs, hit, killed, fincnt, relcnt, errs, fin
+vars == <<tid, l, cs, hit, killed, fincnt, relcnt, errs, fin>>
 
 T      == Traces[tid]
 Ev     == T.events
@@ -35,6 +35,7 @@ Init ==
   /\ cs = [t \in Uids |-> "none"]
   /\ hit = {} /\ killed = {}
   /\ fincnt = [t \in Uids |-> 0]
+  /\ relcnt = [t \in Uids |-> 0]      \* unschedule messages delivered to the scheduler, per task
   /\ errs = {} /\ fin = FALSE
 
 \* what the task's own description / process makes it end as, if nobody cancels it
@@ -52,11 +53,14 @@ Step ==
      /\ l' = l + 1 /\ fin' = FALSE
      /\ cs' = ncs /\ hit' = h2 /\ killed' = k2
      /\ fincnt' = [t \in Uids |-> IF ncs[t] \in Final /\ cs[t] \notin Final THEN fincnt[t] + 1 ELSE fincnt[t]]
+     /\ relcnt' = [t \in Uids |-> IF t \in SeqSet(e.rel) THEN relcnt[t] + 1 ELSE relcnt[t]]
      /\ errs' = errs
           \* an exception escaped a component or the client callback
           \cup E(e.err = "none", "C05.ComponentDied")
           \* final is final
           \cup UNION {E(cs[t] \in Final => ncs[t] = cs[t], "C05.FinalChanged") : t \in Uids}
+          \* resources are given back once
+          \cup UNION {E(relcnt[t] = 0, "C03.ReleasedTwice") : t \in SeqSet(e.rel)}
           \* only named tasks are killed
           \cup UNION {E(t \in Named, "C08.KilledNotNamed") : t \in SeqSet(e.killed)}
           \cup (IF e.ev = "end" THEN
@@ -92,7 +96,7 @@ Step ==
 Finish ==
   /\ ~fin /\ l > Len(Ev) /\ fin' = TRUE
   /\ PrintT(<<"RESULT", T.tid, errs \cup UNION {E(fincnt[t] <= 1, "C05.FinalTwice") : t \in Uids}>>)
-  /\ UNCHANGED <<tid, l, cs, hit, killed, fincnt, errs>>
+  /\ UNCHANGED <<tid, l, cs, hit, killed, fincnt, relcnt, errs>>
 
 Next == Step \/ Finish
 Spec == Init /\ [][Next]_vars
